@@ -224,6 +224,11 @@ def solve_one(ob, timeout_ms):
     if ob.verdict is not None:
         return
     t = time.time()
+    gf = getattr(ob, 'global_facts', None)
+    if gf:
+        have = {f.get_id() for f in ob.pc}
+        ob.pc = list(ob.pc) + [f for f in gf if f.get_id() not in have]
+        ob.global_facts = None
     if ob.kind == 'cover':
         s = z3.Solver()
         s.set('timeout', min(timeout_ms, 1500))
@@ -312,7 +317,7 @@ _last_stage = ['qf']
 
 def solve_conjunct(ob, flat_pc, qf, c, sk, timeout_ms):
     r = _solve_conjunct(ob, flat_pc, qf, c, sk, timeout_ms)
-    if r[0] == 'proved' and r[2] in ('', 'inst', 'ematch'):
+    if r[0] == 'proved' and r[2] in ('', 'inst', 'ematch', 'cli'):
         _last_stage[0] = r[2] or 'qf'
     return r
 
@@ -340,6 +345,12 @@ def _solve_conjunct(ob, flat_pc, qf, c, sk, timeout_ms):
             return 'proved', 'z3', '', None
         extra = instances(flat_pc, c, sk, qf)
         if extra:
+            if _last_stage[0] == 'cli':
+                s = z3.Solver()
+                s.add(*(qf + extra))
+                s.add(z3.Not(c))
+                if cli_check(s, '/usr/bin/z3', max(5, timeout_ms // 1000)) == 'unsat':
+                    return 'proved', 'z3-4.8.12-cli', 'cli', None
             r, s = attempt(qf + extra, third)
             if r == z3.unsat:
                 return 'proved', 'z3', 'inst', None
@@ -352,7 +363,7 @@ def _solve_conjunct(ob, flat_pc, qf, c, sk, timeout_ms):
     s = z3.Solver()
     s.add(*hyps)
     s.add(z3.Not(c))
-    r2 = cli_check(s, '/usr/bin/z3', max(3, timeout_ms // 2000))
+    r2 = cli_check(s, '/usr/bin/z3', max(5, timeout_ms // 1000))
     if r2 == 'unsat':
         return 'proved', 'z3-4.8.12-cli', 'cli', None
     if extra:
